@@ -217,3 +217,85 @@ func c06FieldOrder(r *core.Run, ef *errFlow, pkgs []pkgCodec) {
 		})
 	}
 }
+
+// R06.10: a slice that is filled with append must start empty. `x = make([]T, n)` followed by `x = append(x, v)`
+// leaves n zero values in front of the appended ones (the classic make/append slip): a reader doing that returns a
+// package with twice the elements and its writer then emits a different count and length than was read.
+func c06AppendAfterMake(r *core.Run) {
+	p := r.Prog
+	n := 0
+	for _, fn := range p.ModuleFuncs() {
+		if fn.Pkg == nil || fn.Pkg.Pkg.Path() != core.Module+"/tds" || r.Prog.IsGenerated(fn.Pos()) {
+			continue
+		}
+		nonEmptyMake := func(v ssa.Value) (ssa.Value, bool) {
+			if ms, ok := v.(*ssa.MakeSlice); ok {
+				if c, isC := core.ConstInt64(ms.Len); !isC || c != 0 {
+					return ms, true
+				}
+			}
+			if k, ok := core.MakeLen(v); ok && k != 0 {
+				// make([]T, k) with a constant k is lowered to new [k]T + slice; a slice LITERAL looks the same but is initialised
+				if sl, isSl := v.(*ssa.Slice); isSl {
+					if al, isAl := sl.X.(*ssa.Alloc); isAl && al.Comment == "makeslice" {
+						return v, true
+					}
+				}
+			}
+			return nil, false
+		}
+		for _, c := range core.Calls(fn) {
+			call, ok := c.(*ssa.Call)
+			if !ok {
+				continue
+			}
+			bi, isB := call.Call.Value.(*ssa.Builtin)
+			if !isB || bi.Name() != "append" {
+				continue
+			}
+			n++
+			base := call.Call.Args[0]
+			var origin ssa.Value
+			seen := map[ssa.Value]bool{}
+			var walk func(v ssa.Value, d int)
+			walk = func(v ssa.Value, d int) {
+				if d > 6 || seen[v] || origin != nil {
+					return
+				}
+				seen[v] = true
+				if m, ok := nonEmptyMake(v); ok {
+					origin = m
+					return
+				}
+				if ph, ok := v.(*ssa.Phi); ok {
+					for _, e := range ph.Edges {
+						walk(e, d+1)
+					}
+					return
+				}
+				if f, b := core.FieldLoad(v); f != nil {
+					// stores to the same field of the same object in this function that dominate the append
+					for _, bb := range fn.Blocks {
+						for _, in := range bb.Instrs {
+							st, ok := in.(*ssa.Store)
+							if !ok {
+								continue
+							}
+							fa, ok := st.Addr.(*ssa.FieldAddr)
+							if ok && core.FieldOfAddr(fa) == f && fa.X == b && core.Dominates(st, call) {
+								if m, isM := nonEmptyMake(st.Val); isM {
+									origin = m
+								}
+							}
+						}
+					}
+				}
+			}
+			walk(base, 0)
+			if origin != nil {
+				r.Bad("R06.10", core.FuncName(fn)+": append to "+core.KExpr(base), call.Pos(), "append to a slice that was made with a non-zero length ("+core.Expr(origin)+" at "+p.Pos(origin.Pos())+"): the result starts with that many zero values, so a package read this way carries more elements than were on the wire and is written back with a different count and length")
+			}
+		}
+	}
+	r.Check(n > 0, "R06.10", "slices filled by append start empty", token.NoPos, fmt.Sprintf("%d append calls in package tds, none onto a slice made with a non-zero length", n), "no append calls seen")
+}
